@@ -1,6 +1,7 @@
 package c18
 
 import (
+	"bytes"
 	"context"
 	"fmt"
 	"runtime"
@@ -50,6 +51,9 @@ type driver struct {
 	// malformedPending those after which no barrier has been answered yet
 	malformedSent    int
 	malformedPending int
+	// sampleAtReturn (M10): calls ask Joined() on their own goroutine as soon
+	// as they have returned nil
+	sampleAtReturn bool
 }
 
 func (d *driver) addr(room int) string { return d.mc.Rooms[room-1] }
@@ -189,6 +193,10 @@ func (d *driver) start(st step) {
 				cl.err = cl.ch.LeavePresence(ctx, "", stanza.Presence{ID: cl.reqID})
 			}
 		})
+		if d.sampleAtReturn && cl.err == nil && cl.ch != nil {
+			j := cl.ch.Joined()
+			cl.joinedAtRet = &j
+		}
 		class, cond := classifyErr(cl.err)
 		text := ""
 		if cl.err != nil {
@@ -339,6 +347,14 @@ func (d *driver) await(st step) {
 	}
 }
 
+// mucGoroutineAlive reports whether any goroutine started by the MUC package
+// (its request goroutines) exists, running or parked.
+func mucGoroutineAlive() bool {
+	buf := make([]byte, 8<<20)
+	n := runtime.Stack(buf, true)
+	return bytes.Contains(buf[:n], []byte("created by mellium.im/xmpp/muc."))
+}
+
 func (d *driver) barrier() bool {
 	d.nbar++
 	id := d.w.barrierSend(d.nbar)
@@ -360,6 +376,21 @@ func (d *driver) barrier() bool {
 				return false
 			}
 		}
+		// … or does the serve loop wait for a response to be closed that nobody
+		// holds any more?  Responses to the package's requests are held by its
+		// request goroutines; when none of those is alive (before and after three
+		// samples that find the serve loop at that wait), nobody can close it.
+		answered := false
+		if !mucGoroutineAlive() {
+			if ps := stall.Check(func(fn string) bool { return fn == "handleInputStream" }, 0); len(ps) > 0 && ps[0].State == "chan receive" && !mucGoroutineAlive() {
+				if answered = d.w.barrierWait(d.nbar, id, 0); answered {
+					goto done
+				}
+				d.c.Violate("stall:handleInputStream:response-never-closed", "the serve loop no longer answers a ping: it waits for the response to one of the MUC package's requests to be closed, and no goroutine of the package is left that could close it\n%s", ps[0].Stack)
+				d.aborted = true
+				return false
+			}
+		}
 		if !d.w.barrierWait(d.nbar, id, hardLimit) {
 			select {
 			case <-d.w.served:
@@ -371,6 +402,7 @@ func (d *driver) barrier() bool {
 			return false
 		}
 	}
+done:
 	d.c.Count("barriers", 1)
 	d.malformedPending = 0
 	// sample membership of every occupant that has a channel and no call in flight
@@ -604,12 +636,15 @@ func runCase(c *core.Case) {
 
 func execCase(c *core.Case, mc *muCase) {
 	base := stall.Snapshot(nil)
-	w, err := newWorld()
+	w, err := newWorldOpt(c.Index%5 == 3)
 	if err != nil {
 		c.Count("setup_failures", 1)
 		return
 	}
 	defer w.shutdown()
+	if w.noInviteCB {
+		c.Count("cases_whose_client_has_no_invitation_callback", 1)
+	}
 	// (deterministic in the case: the presences of every third case alternate)
 	if c.Index%3 == 1 {
 		n := 0
